@@ -53,6 +53,7 @@ type (
 	VUnknown struct {
 		Typ  types.Type
 		Note string
+		ID   int // identity: two reads of the same unknown agree on nil-ness
 	}
 )
 
